@@ -297,7 +297,7 @@ theorem p2wsh_reduces {D} (cx : Ctx D) (items : List Bytes) (ws : Bytes)
     simp [witnessProgram?, canonicalPush, hh]
   obtain ⟨ops, hops⟩ := Option.isSome_iff_exists.1 hp
   have hws' : ¬ ws.length > 10000 := by omega
-  simp [isScriptHash, hwp, run, execOp, pushTooBig, executing, hmin, hh, hops, hsz, hws']
+  simp [isScriptHash, hwp, run, execOp, pushTooBig, executing, hmin, hh, hops, hsz, hws', verifyWitness]
   cases runScript cx true ws items.reverse <;> rfl
 
 /-- BIP141/143: spending a native P2WPKH output with witness `[sig, pk]` is running the P2PKH
@@ -325,7 +325,7 @@ theorem p2wpkh_reduces {D} (cx : Ctx D) (sig pk prog : Bytes) (hh : prog.length 
     simp [witnessProgram?, canonicalPush, hh]
   have hs' : ¬ sig.length > 520 := by omega
   have hk' : ¬ pk.length > 520 := by omega
-  simp [isScriptHash, hwp, run, execOp, pushTooBig, executing, hmin, hh, tooBigElement, hs', hk']
+  simp [isScriptHash, hwp, run, execOp, pushTooBig, executing, hmin, hh, tooBigElement, hs', hk', verifyWitness]
   cases runScript cx true (p2pkh prog) [pk, sig] <;> rfl
 
 /-- closed form of running a P2PKH script on stack `[pk, sig]` -/
@@ -399,4 +399,103 @@ theorem opCheckSig_good {D} (cx : Ctx D) (wit : Bool) (code pk sigDER : Bytes) (
   simp [opCheckSig, g.enc, g.compressed, g.parses, g.valid, fromBool]
   omega
 
+set_option linter.unusedSimpArgs false
+
+/-- native witness programs of version 0 are decided by `verifyWitness` -/
+theorem native_witness_eq {D} (cx : Ctx D) (prog : Bytes) (witness : List Bytes)
+    (hl : prog.length = 20 ∨ prog.length = 32) :
+    verifyInput cx [] witness ([0x00, u8 prog.length] ++ prog) = verifyWitness cx 0 prog witness := by
+  have hlt : prog.length ≤ 75 ∧ prog.length ≠ 0 ∧ 2 ≤ prog.length ∧ prog.length ≤ 40 := by omega
+  have hparse : parse ([0x00, u8 prog.length] ++ prog) = some [.zero, .push .direct prog] := by
+    unfold parse
+    simp only [List.cons_append, List.nil_append]
+    rw [feed_zero]
+    have := feed_direct ([] ++ [Op.zero]) (u8 prog.length) prog []
+      (by rw [u8_toNat _ (by omega)]; omega) (by rw [u8_toNat _ (by omega)]; omega)
+      (by rw [u8_toNat _ (by omega)])
+    simp only [List.append_nil, List.nil_append] at this ⊢
+    rw [this]; rfl
+  unfold verifyInput
+  have hne : (([0x00, u8 prog.length] : Bytes) ++ prog).isEmpty = false := by simp
+  have hnb : ¬ (([] : Bytes).length > 10000 ∨ (([0x00, u8 prog.length] : Bytes) ++ prog).length > 10000) := by
+    simp; omega
+  rw [hne]
+  simp only [Bool.and_false, if_neg hnb, Bool.false_eq_true, if_false]
+  rw [hparse]
+  have hp0 : parse ([] : Bytes) = some [] := rfl
+  rw [hp0]
+  have hmin : minimalPush .direct prog = true := by
+    rw [minimalPush_long _ _ (by omega)]; simp [hlt.1]
+  have hnb2 : ¬ prog.length > 520 := by omega
+  have hcan : canonicalPush (.push .direct prog) = true := by
+    simp [canonicalPush]; omega
+  have hwp : witnessProgram? [Op.zero, Op.push PushEnc.direct prog] = some (0, prog) := by
+    simp [witnessProgram?, hcan, hlt.2.2.1, hlt.2.2.2]
+  simp [isScriptHash, hwp, run, execOp, pushTooBig, executing, hmin, hnb2]
+
+/-- BIP141 P2SH-nested witness programs (scriptSig = exactly one canonical push of the version-0
+    program) are decided by the same `verifyWitness` as native ones: nesting changes nothing. -/
+theorem nested_witness_eq {D} (cx : Ctx D) (prog : Bytes) (witness : List Bytes)
+    (hl : prog.length = 20 ∨ prog.length = 32) (hw : witness ≠ [])
+    (hh : (cx.hash160 ([0x00, u8 prog.length] ++ prog)).length = 20) :
+    verifyInput cx (pushData ([0x00, u8 prog.length] ++ prog)) witness
+        (p2sh (cx.hash160 ([0x00, u8 prog.length] ++ prog))) =
+      verifyWitness cx 0 prog witness := by
+  have hlt : prog.length ≤ 75 ∧ prog.length ≠ 0 ∧ 2 ≤ prog.length ∧ prog.length ≤ 40 := by omega
+  generalize hP : ([0x00, u8 prog.length] : Bytes) ++ prog = P at *
+  have hPl : P.length = prog.length + 2 := by rw [← hP]; simp
+  have hparseP : parse P = some [.zero, .push .direct prog] := by
+    rw [← hP]
+    unfold parse
+    simp only [List.cons_append, List.nil_append]
+    rw [feed_zero]
+    have := feed_direct ([] ++ [Op.zero]) (u8 prog.length) prog []
+      (by rw [u8_toNat _ (by omega)]; omega) (by rw [u8_toNat _ (by omega)]; omega)
+      (by rw [u8_toNat _ (by omega)])
+    simp only [List.append_nil, List.nil_append] at this ⊢
+    rw [this]; rfl
+  have hok : ItemsOk [P] := by intro x hx; simp at hx; subst hx; omega
+  have hpa : pushAll [P] = pushData P := by simp [pushAll]
+  have hparseS : parse (pushData P) = some [pushOpFor P] := by
+    have := parse_pushAll [P] hok
+    rw [hpa] at this; simpa using this
+  have hpo : pushOpFor P = .push .direct P := by
+    simp [pushOpFor]; omega
+  unfold verifyInput
+  have hne : (pushData P).isEmpty = false := by
+    rw [pushData_of_long P (by omega)]; have : P.length ≤ 75 := by omega
+    simp [this]
+  have hl2 : (p2sh (cx.hash160 P)).length = 23 := by simp [p2sh, hh]
+  have hl1 : (pushData P).length ≤ 10000 := by
+    rw [pushData_of_long P (by omega)]
+    have : P.length ≤ 75 := by omega
+    simp [this]; omega
+  have hnb : ¬ ((pushData P).length > 10000 ∨ (p2sh (cx.hash160 P)).length > 10000) := by omega
+  rw [hne]
+  simp only [Bool.false_and, if_neg hnb, Bool.false_eq_true, if_false]
+  rw [hparseS, parse_p2sh _ hh, hpo]
+  have hsh : isScriptHash [Op.hash160, Op.push PushEnc.direct (cx.hash160 P), Op.equal] = true := by
+    simp [isScriptHash, hh]
+  have hcanP : canonicalPush (.push .direct P) = true := by simp [canonicalPush]; omega
+  have hcan : canonicalPush (.push .direct prog) = true := by simp [canonicalPush]; omega
+  have hwpP : witnessProgram? [Op.zero, Op.push PushEnc.direct prog] = some (0, prog) := by
+    simp [witnessProgram?, hcan, hlt.2.2.1, hlt.2.2.2]
+  have hiw : isWitnessProgramBytes P = true := by
+    simp [isWitnessProgramBytes, hparseP, hwpP, hPl]; omega
+  have hwe : witness.isEmpty = false := by cases witness <;> simp_all
+  have hminP : minimalPush .direct P = true := by
+    rw [minimalPush_long _ _ (by omega)]; have : P.length ≤ 75 := by omega
+    simp [this]
+  have hmin : minimalPush .direct prog = true := by
+    rw [minimalPush_long _ _ (by omega)]; simp [hlt.1]
+  have hminH : minimalPush .direct (cx.hash160 P) = true := by
+    rw [minimalPush_long _ _ (by omega)]; simp [hh]
+  have b1 : ¬ P.length > 520 := by omega
+  have b2 : ¬ prog.length > 520 := by omega
+  have b3 : ¬ (cx.hash160 P).length > 520 := by omega
+  have hwp3 : witnessProgram? [Op.hash160, Op.push PushEnc.direct (cx.hash160 P), Op.equal] = none := rfl
+  simp [hsh, isPushOnly, isPushOp, hwp3, hwe, hcanP, hiw, hparseP, hwpP, run, execOp,
+    pushTooBig, executing, hminP, hmin, hminH, b1, b2, b3, fromBool, asBool, runScript]
+
 end KeepVerif.Script
+
